@@ -224,8 +224,13 @@ func (s *surf4) gen(idx int) *Input {
 		class = "configmap-absent"
 	}
 	d.text = text
-	return &Input{Class: class, Tag: tag, Op: op, data: d, Show: map[string]interface{}{"text": show(text), "configmap_has_key": !d.noKey,
+	in := &Input{Class: class, Tag: tag, Op: op, data: d, Show: map[string]interface{}{"text": show(text), "configmap_has_key": !d.noKey,
 		"configmap_present": !d.noCM}}
+	if f := genFault(g, 0.12); f != nil && tag == "" && !d.fullConf {
+		in.Fault = f
+		in.Show.(map[string]interface{})["api_fault"] = f
+	}
+	return in
 }
 
 func (s *surf4) call(in *Input) (string, string) {
@@ -261,6 +266,8 @@ func (s *surf4) call(in *Input) (string, string) {
 			return outEnv, err.Error()
 		}
 	}
+	s.e.fault.arm(in.Fault)
+	defer s.e.fault.disarm()
 	updated, err := s.e.plugin.VerifReloadConfigMap()
 	if err != nil {
 		var probe []json.RawMessage
@@ -276,5 +283,7 @@ func (s *surf4) call(in *Input) (string, string) {
 }
 
 func (s *surf4) probe(in *Input, step func(string)) {
+	s.e.fault.disarm()
+	s.e.flushFaultCounters(s.c)
 	s.e.probe(nil, step)
 }
